@@ -3,6 +3,7 @@
    ascii_only), Lex/Model.v (lex, escape, step), Span/Model.v (ptree, sp, mono, dialect, accepts, validate). *)
 From Coq Require Import NArith ZArith List Bool String.
 From SV Require Import Extracted.LexC Lex.Model Lex.Spec Lex.Proofs Span.Model Span.Proofs.
+From SV Require Parse.Tokens Parse.Ast Parse.Model Span.ParserSpans Span.ParserSpansProofs.
 Import ListNotations.
 Open Scope N_scope.
 
@@ -151,3 +152,78 @@ Example C05_nonvacuous :
   accepts Extended (SSimple, [FFString]) = false /\ accepts AllOptionsInternal (SSimple, [FFString; FLambda true true]) = true /\
   sp (PNode [PTok 0 2; PNode [PTok 3 4; PTok 5 9]; PTok 9 10]) = (0, 10).
 Proof. vm_compute. repeat split; reflexivity. Qed.
+
+(* ---------- the parser's spans on the model (Span/ParserSpans.v: the parser model of C06 with `last_end` threaded as in
+   parser_rd.rs; every node of the result carries the span `node.ast(l, r)` gives it) ---------- *)
+
+(* erasing the spans of the span-tracking parser's result gives exactly the parser model of C06 (Parse.Model.parse, proved
+   equal to the reference grammar there): same accept/reject decision, same error code, same tree *)
+Theorem C05_parser_erase_spans : forall c fuel (ts : list (Parse.Tokens.token * (N * N))),
+  ParserSpans.rmap ParserSpans.erase_stmt (ParserSpans.sparse c fuel ts) = Parse.Model.parse c fuel (map fst ts).
+Proof. exact ParserSpansProofs.parser_erase_spans. Qed.
+
+Theorem C05_parser_erase_spans_expr : forall c fuel (ts : list (Parse.Tokens.token * (N * N))) le,
+  ParserSpans.rmap (fun p => (ParserSpans.erase (fst p), ParserSpans.toks_of (snd p))) (ParserSpans.sparse_test_m c fuel (ts, le))
+  = Parse.Model.parse_test_m c fuel (map fst ts).
+Proof. exact ParserSpansProofs.parser_erase_spans_test. Qed.
+
+(* every node's span begins at the begin of the first lexeme and ends at the end of the last lexeme of a non-empty run of
+   lexemes (`lay`): a leaf is exactly its own lexeme, the children of a node are laid out in source order over disjoint
+   consecutive sub-runs of their parent's run, and the statement node is laid out over ALL lexemes of the line *)
+Theorem C05_parser_span_covers_tokens : forall c fuel (ts : list (Parse.Tokens.token * (N * N))) t,
+  ParserSpans.sparse c fuel ts = Parse.Ast.Ok t -> ParserSpans.lay ts (ParserSpans.tree_of_stmt t).
+Proof. exact ParserSpansProofs.parser_layout. Qed.
+
+(* for an expression (parse_test): the lexemes consumed are `(`* core `)`* and the expression is laid out over core --
+   the only lexemes a node consumes that are outside its span are enclosing parentheses (parse_atom returns the inner
+   expression with its own span); last_end is the end of the last consumed lexeme *)
+Theorem C05_parser_span_covers_tokens_expr : forall c fuel (ts : list (Parse.Tokens.token * (N * N))) le e ts' le',
+  ParserSpans.sparse_test_m c fuel (ts, le) = Parse.Ast.Ok (e, (ts', le')) ->
+  exists cons, ts = cons ++ ts' /\ le' = ParserSpans.end_last le cons /\ ParserSpans.covers cons (ParserSpans.tree_of e).
+Proof. exact ParserSpansProofs.parser_layout_test. Qed.
+
+(* any tree laid out over lexemes with monotone in-file spans nests: every node is ordered and inside the file, every child
+   lies inside its parent, consecutive children do not overlap, a leaf has exactly the span of the lexeme carrying its token *)
+Theorem C05_layout_nesting : forall len (ts : list (Parse.Tokens.token * (N * N))) t,
+  mono (map snd ts) -> (forall x, In x (map snd ts) -> snd x <= len) -> ParserSpans.lay ts t -> ParserSpans.wf len ts t.
+Proof. exact ParserSpansProofs.lay_wf. Qed.
+
+(* ... in particular the tree the parser returns, for every lexeme list with monotone in-file spans (what
+   C05_lexer_tokens_mono provides for the lexer's output) *)
+Theorem C05_parser_span_nesting : forall c fuel (ts : list (Parse.Tokens.token * (N * N))) len t,
+  mono (map snd ts) -> (forall x, In x (map snd ts) -> snd x <= len) ->
+  ParserSpans.sparse c fuel ts = Parse.Ast.Ok t -> ParserSpans.wf len ts (ParserSpans.tree_of_stmt t).
+Proof. exact ParserSpansProofs.parser_span_nesting. Qed.
+
+(* the span-tracking parser does something:  `(a).b = x + f(y, k=2)`  and  `lambda a=(1): a`  (a one-operator table);
+   the `.b` node starts at `a`, not at the parenthesis; the parameter `a=(1)` ends after the default's parenthesis *)
+Example C05_parser_spans_nonvacuous :
+  let c := {| Parse.Tokens.c_tbl := [(Parse.Tokens.TPlus, (Parse.Tokens.Add, 15%Z, 16%Z))]; Parse.Tokens.c_cmp := [];
+              Parse.Tokens.c_not_max := 5; Parse.Tokens.c_not_rbp := 5; Parse.Tokens.c_ni_l := 5; Parse.Tokens.c_ni_r := 6;
+              Parse.Tokens.c_nic_l := 5; Parse.Tokens.c_nic_r := 6; Parse.Tokens.c_bitor := 7; Parse.Tokens.c_arg := 0;
+              Parse.Tokens.c_ortest := 0; Parse.Tokens.c_test := 0;
+              Parse.Tokens.c_start := ["Identifier"; "Int"; "OpeningRound"]%string;
+              Parse.Tokens.c_unary := [("Minus", "Minus")]%string |} in
+  ParserSpans.sparse c 20
+    [(Parse.Tokens.TOpeningRound, (0, 1)); (Parse.Tokens.TIdentifier 1, (1, 2)); (Parse.Tokens.TClosingRound, (2, 3));
+     (Parse.Tokens.TDot, (3, 4)); (Parse.Tokens.TIdentifier 2, (4, 5)); (Parse.Tokens.TEqual, (6, 7));
+     (Parse.Tokens.TIdentifier 3, (8, 9)); (Parse.Tokens.TPlus, (10, 11)); (Parse.Tokens.TIdentifier 4, (12, 13));
+     (Parse.Tokens.TOpeningRound, (13, 14)); (Parse.Tokens.TIdentifier 5, (14, 15)); (Parse.Tokens.TComma, (15, 16));
+     (Parse.Tokens.TIdentifier 6, (17, 18)); (Parse.Tokens.TEqual, (18, 19)); (Parse.Tokens.TInt 2, (19, 20));
+     (Parse.Tokens.TClosingRound, (20, 21))]
+  = Parse.Ast.Ok
+      (ParserSpans.TAssign (0, 21)
+         (ParserSpans.XDot (1, 5) (ParserSpans.XId (1, 2) 1) (4, 5) 2)
+         (ParserSpans.XOp (8, 21) (ParserSpans.XId (8, 9) 3) Parse.Tokens.Add
+            (ParserSpans.XCall (12, 21) (ParserSpans.XId (12, 13) 4)
+               [ParserSpans.YPos (14, 15) (ParserSpans.XId (14, 15) 5);
+                ParserSpans.YNamed (17, 20) (17, 18) 6 (ParserSpans.XInt (19, 20) 2)]))) /\
+  ParserSpans.sparse c 20
+    [(Parse.Tokens.TLambda, (0, 6)); (Parse.Tokens.TIdentifier 1, (7, 8)); (Parse.Tokens.TEqual, (8, 9));
+     (Parse.Tokens.TOpeningRound, (9, 10)); (Parse.Tokens.TInt 1, (10, 11)); (Parse.Tokens.TClosingRound, (11, 12));
+     (Parse.Tokens.TColon, (12, 13)); (Parse.Tokens.TIdentifier 1, (14, 15))]
+  = Parse.Ast.Ok
+      (ParserSpans.TExpr (0, 15)
+         (ParserSpans.XLambda (0, 15) [ParserSpans.ZNormal (7, 12) (7, 8) 1 (Some (ParserSpans.XInt (10, 11) 1))]
+            (ParserSpans.XId (14, 15) 1))).
+Proof. vm_compute. split; reflexivity. Qed.
